@@ -488,6 +488,42 @@ class Gen:
             self.next_lseid[conn] = k - 1
         return lseid
 
+    def establish_bad(self, conn):
+        """an establishment that is rejected AFTER the session was allocated and resources were taken: a valid
+        first PDR pair (CHOOSE F-TEID + UPF-allocated UE address) followed by a rule the agent must refuse.
+        Everything acquired so far has to be returned (C05) and nothing may be written (C03)."""
+        r = self.rng
+        seq = self._seq()
+        pdrs = list(self.new_pdr_pair(0, choose=True, chv4=self.cfg["ueip_alloc"], with_sdf=False))
+        fars = list(self.new_far_pair(0))
+        qers = [self.new_qer(1)]
+        kind = r.choice(["pdr_no_far", "pdr_unknown_app", "pdr_cp_iface", "far_no_action", "far_fwd_missing", "qer_no_id"])
+        bad_p, bad_f, bad_q = [], [], []
+        if kind == "pdr_no_far":
+            bad_p = [{"id": 9, "prec": 5, "iface": 1, "ue": "chv4" if self.cfg["ueip_alloc"] else ip(10, 9, 9, 9)}]
+        elif kind == "pdr_unknown_app":
+            bad_p = [{"id": 9, "prec": 5, "iface": 1, "ue": "chv4" if self.cfg["ueip_alloc"] else ip(10, 9, 9, 9), "appid": "no-such-app", "far": 2}]
+        elif kind == "pdr_cp_iface":
+            bad_p = [{"id": 9, "prec": 5, "iface": 3, "ue": ip(10, 9, 9, 9), "far": 2}]
+        elif kind == "pdr_bad_ueip":
+            bad_p = [{"id": 9, "prec": 5, "iface": 1, "ue": "v6", "far": 2}]
+        elif kind == "far_no_action":
+            bad_f = [{"id": 9}]
+        elif kind == "far_fwd_missing":
+            bad_f = [{"id": 9, "action": 2}]
+        elif kind == "qer_no_id":
+            bad_q = [{"qfi": 9, "gate": (0, 0)}]
+        cp_seid = r.randrange(1 << 32)
+        ies = [P.node_id_v4(peer_ip(conn)), P.fseid(cp_seid, peer_ip(conn))]
+        ies += [pdr_ie(P.CREATE_PDR, p) for p in pdrs + bad_p] + [far_ie(P.CREATE_FAR, f) for f in fars + bad_f] + [qer_ie(P.CREATE_QER, q) for q in qers + bad_q]
+        assoc_ok = self.assoc.get(conn, False)
+        k = self.next_lseid.get(conn, 0) + 1
+        if assoc_ok:
+            self.next_lseid[conn] = k            # the draw is consumed, the session is rolled back
+        self.emit(conn, P.message(P.SE_REQ, seq, ies, seid=0),
+                  {"op": "est", "seq": seq, "req": P.SE_REQ, "wf": True, "expect": "reject" if assoc_ok else "reject-noassoc",
+                   "kind": "bad:" + kind, "lseid": (conn + 1) * 1000000 + k, "cp_seid": cp_seid, "pdrs": pdrs, "fars": fars, "qers": qers})
+
     def delete(self, lseid, conn=None):
         seq = self._seq()
         known = lseid in self.sessions and (conn is None or self.sessions[lseid]["conn"] == conn)
@@ -606,6 +642,8 @@ def random_history(rng, cfg=None, length=14, restarts=True):
             c = rng.randrange(g.nconn)
             if c not in g.dead:
                 g.establish(c, node_id=P.node_id_v4(ip(9, 9, 9, 9)) if rng.random() < 0.5 else (None if not g.assoc.get(c) else P.node_id_fqdn("")))
+        elif r < 0.30 and conns_ok:
+            g.establish_bad(rng.choice(conns_ok))
         elif r < 0.60 and live:
             g.modify(rng.choice(live))
         elif r < 0.70 and live:
@@ -843,7 +881,7 @@ def mon_c03(case, intents, obs, views):
             if ms:
                 out.append(("store-not-request", f"event {i} ({it.get('op')}/{it.get('kind','')}): stored rules differ from the request's rules: {ms[:4]}", i))
         # rejected for unknown session / missing association: nothing written
-        if it.get("expect") in ("reject-unknown", "reject-noassoc"):
+        if it.get("expect") in ("reject-unknown", "reject-noassoc") or (it.get("op") == "est" and it.get("expect") == "reject"):
             if o["cmds"]:
                 out.append(("rejected-but-wrote", f"event {i}: request expected to be rejected ({it['expect']}) wrote {o['cmds'][:3]}", i))
             if prev_tables is not None and act != prev_tables:
@@ -1037,4 +1075,50 @@ def corpus_scenarios():
         snap()
         g.delete(lseid)
     run("F14", f14)
+    return out
+
+
+def mon_c06(case, intents, obs):
+    """C06 at the agent level: addresses handed to the control plane (Created PDR) lie strictly inside the pool, are
+    held by one live session only, stick to the session, and every address of the inventory belongs to a live
+    session (an address kept for a session that no longer exists makes the pool refuse while not every address is
+    held); free + held is the whole pool."""
+    out = []
+    cfg = case["cfg"]
+    if not cfg.get("ueip_alloc"):
+        return out
+    addr, ln = cfg["pool"].split("/")
+    a, b, c, d = (int(x) for x in addr.split("."))
+    ln = int(ln)
+    base = ip(a, b, c, d) & ((M32 << (32 - ln)) & M32)
+    size = 1 << (32 - ln)
+    given = {}
+    for i, (it, o) in enumerate(zip(intents, obs)):
+        if "panic" in o or o.get("blocked"):
+            break
+        pools = o["pools"]
+        live = {s["lseid"] for s in o["store"]}
+        inv = dict((k, v) for k, v in pools.get("ip_inv", []))
+        if len(inv) + pools.get("ip_free", 0) != size - 2:
+            out.append(("pool-not-conserved", f"event {i} ({it.get('op')}/{it.get('kind', '')}): free {pools.get('ip_free')} + held {len(inv)} != {size - 2}", i))
+        if len(set(inv.values())) != len(inv):
+            out.append(("address-held-twice", f"event {i}: one address in the inventory for two sessions: {inv}", i))
+        ghosts = sorted(set(inv) - live)
+        if ghosts:
+            out.append(("address-held-by-no-session", f"event {i} ({it.get('op')}/{it.get('kind', '')}): addresses held for sessions that do not exist {ghosts}", i))
+        for c_, m in replies_of(o):
+            if m.get("type") == P.SE_RSP and m.get("cause") == P.CAUSE_ACCEPTED:
+                for cp in m.get("created", []):
+                    if "ueip" in cp:
+                        u = cp["ueip"]
+                        if not (base < u < base + size - 1):
+                            out.append(("address-out-of-range", f"event {i}: UE address {u} outside the pool or its network/broadcast address", i))
+                        holders = [s["lseid"] for s in o["store"] for p in s["pdrs"] if p["alloc_ip"] and p["ue"] == u]
+                        if len(set(holders)) > 1:
+                            out.append(("address-given-twice", f"event {i}: UE address {u} is held by sessions {sorted(set(holders))}", i))
+            if m.get("type") == P.SE_RSP and m.get("cause") not in (None, P.CAUSE_ACCEPTED) and it.get("expect") == "accept":
+                # refusal only when every address is held
+                want_alloc = any(p.get("ue") == "chv4" for p in it.get("pdrs", []))
+                if want_alloc and len(live) < size - 2 and pools.get("ip_free", 0) == 0:
+                    out.append(("refused-while-not-all-held", f"event {i}: allocation refused with {len(live)} live sessions on a pool of {size - 2}", i))
     return out
